@@ -66,7 +66,7 @@ fn runs_for(property: &str, tier: Tier) -> u64 {
         ("C07", Tier::Quick) => 4_000,
         ("C07", Tier::Thorough) => 1_000_000,
         ("C17", Tier::Tiny) => 20,
-        ("C17", Tier::Quick) => 800,
+        ("C17", Tier::Quick) => 1_200,
         ("C17", Tier::Thorough) => 200_000,
         ("C20", Tier::Tiny) => 200,
         ("C20", Tier::Quick) => 8_000,
